@@ -86,7 +86,7 @@ def reference_cases(ctx, drv):
     plan = os.path.join(ctx.scratch, "plan.ndjson")
     ctx.run([drv, "-plan", plan])
     lines = [x for x in open(plan).read().splitlines() if x.strip()]
-    shards = max(1, min(16, len(lines) // 8))
+    shards = max(1, min(16, len(lines) // 40))
     outs = []
 
     def work(i):
